@@ -263,6 +263,8 @@ def PROOFS():
             ("vf.contracts.terms_c", ["formulae.terms.terms.GroupSpecificTerm.eval_new_data"]),
             ("vf.contracts.variable_c", ["formulae.terms.variable.Variable.labels", "formulae.terms.call.Call.labels"] + ["formulae.terms.variable.Variable.eval_categoric", "formulae.terms.call.Call.eval_categoric"]),
             # property lemmas: label j of a categorical factor names exactly the level whose indicator column j is; two-way interaction
+            # the intercept column: one 1 per row of the frame it is evaluated on (training and new data)
+            ("vf.contracts.call_newdata_c", [f for f in __import__("vf.contracts.call_newdata_c", fromlist=["FUNCTIONS"]).FUNCTIONS if ".Intercept." in f]),
             ("vf.contracts.lemmas_c", ["vf.proplemmas.c04.main_effect", "vf.proplemmas.c04.main_effect#call", "vf.proplemmas.c04.pair_interaction"])]
 
 
